@@ -1,3 +1,4 @@
 -- Root of the `LettreVerif` library (models, specifications, proofs, property theorems).
 import LettreVerif.Props.C03
 import LettreVerif.Props.C15
+import LettreVerif.Props.C16
